@@ -37,6 +37,7 @@ type Engine struct {
 	driftMu sync.Mutex
 	drift   map[string]string
 	recorded map[string][]string // parameter and local names per function, in declaration order, when the contracts were written (/verif/locals.json)
+	aidDrift map[string]bool     // drift entries that concern unnamed loop invariants (proof aids) only
 	aliased  map[string]string   // functions in which a contract identifier was re-bound to a renamed parameter / local
 }
 
@@ -138,7 +139,7 @@ func LoadEngine(repoDir string) (*Engine, error) {
 	}
 	prog, _ := ssautil.AllPackages(pkgs, ssa.NaiveForm|ssa.GlobalDebug|ssa.InstantiateGenerics)
 	prog.Build()
-	e := &Engine{fset: prog.Fset, prog: prog, pkgs: pkgs, cs: NewContractSet(), fnIndex: map[string]*ssa.Function{}, repoDir: repoDir, allPkgs: map[string]*packages.Package{}, effFree: map[*ssa.Function]bool{}, usable: map[*FuncContract]string{}, drift: map[string]string{}, aliased: map[string]string{}}
+	e := &Engine{fset: prog.Fset, prog: prog, pkgs: pkgs, cs: NewContractSet(), fnIndex: map[string]*ssa.Function{}, repoDir: repoDir, allPkgs: map[string]*packages.Package{}, effFree: map[*ssa.Function]bool{}, usable: map[*FuncContract]string{}, drift: map[string]string{}, aliased: map[string]string{}, aidDrift: map[string]bool{}}
 	if b, err := os.ReadFile(filepath.Join(verifDir, "locals.json")); err == nil {
 		if err := json.Unmarshal(b, &e.recorded); err != nil {
 			return nil, fmt.Errorf("locals.json: %v", err)
